@@ -129,11 +129,16 @@ def idOfPoly (n : Net) (g : PolyObj) : Res Int :=
   | some i => .ok i
   | none => .error .key
 
-/-- `find_lanelet_by_position(point_list)`; `within ring p` stands for `dwithin(polygon, point, 1e-15)`. -/
+/-- `find_lanelet_by_position(point_list)`; `within ring p` stands for `dwithin(polygon, point, 1e-15)`.
+    An empty point list is answered `[]` BEFORE `self._strtee` is touched (`if len(point_list) == 0: return []`), so it
+    does not raise even on a network object that holds no tree. -/
 def findByPosition (within : List Pt → Pt → Bool) (n : Net) (pts : List Pt) : Res (List (List Int)) :=
-  match n.tree with
-  | none => .error .attr
-  | some gs => pts.mapM (fun p => (gs.filter (fun g => within g.ring p)).mapM (idOfPoly n))
+  match pts with
+  | [] => .ok []
+  | _ :: _ =>
+    match n.tree with
+    | none => .error .attr
+    | some gs => pts.mapM (fun p => (gs.filter (fun g => within g.ring p)).mapM (idOfPoly n))
 
 /-- `find_lanelet_by_shape` for a Circle / Polygon / Rectangle; `meets ring s` stands for
     `polygon.intersects(shape.shapely_object)`. -/
